@@ -319,7 +319,7 @@ func checkCov(c covCase) *vk.Failure {
 }
 
 func TestCovMat(t *testing.T) {
-	vk.Run(t, "covmat", vk.Opts{Quick: 6000, Thorough: 200000, NoCrumb: true}, func(t *rapid.T) covCase {
+	vk.Run(t, "covmat", vk.Opts{Quick: 12000, Thorough: 200000, NoCrumb: true}, func(t *rapid.T) covCase {
 		return covCase{
 			N:      vk.Dim(t, "n", 2, 60, 3, 8),
 			D:      rapid.IntRange(1, 6).Draw(t, "d"),
@@ -441,7 +441,7 @@ func checkMaha(c mahaCase) *vk.Failure {
 }
 
 func TestMahalanobis(t *testing.T) {
-	vk.Run(t, "maha", vk.Opts{Quick: 3000, Thorough: 100000, NoCrumb: true}, func(t *rapid.T) mahaCase {
+	vk.Run(t, "maha", vk.Opts{Quick: 5000, Thorough: 100000, NoCrumb: true}, func(t *rapid.T) mahaCase {
 		return mahaCase{D: rapid.IntRange(1, 7).Draw(t, "d"), Seed: rapid.Uint64().Draw(t, "seed"), Same: rapid.IntRange(0, 7).Draw(t, "same") == 0}
 	}, checkMaha)
 }
@@ -622,7 +622,7 @@ func checkCC(c ccCase) *vk.Failure {
 }
 
 func TestCC(t *testing.T) {
-	vk.Run(t, "cancorr", vk.Opts{Quick: 2500, Thorough: 80000, NoCrumb: true}, func(t *rapid.T) ccCase {
+	vk.Run(t, "cancorr", vk.Opts{Quick: 5000, Thorough: 80000, NoCrumb: true}, func(t *rapid.T) ccCase {
 		xd := rapid.IntRange(1, 4).Draw(t, "xd")
 		yd := rapid.IntRange(1, 4).Draw(t, "yd")
 		return ccCase{
